@@ -452,6 +452,27 @@ func LAccesses(p *Prog, fns []*ssa.Function) []LAccess {
 						}
 						continue
 					}
+					if bi, isB := cc.Value.(*ssa.Builtin); isB && bi.Name() == "copy" && len(cc.Args) == 2 {
+						// copy(dst, …) with dst a (re-slice of a) package-level slice value: writes the array every holder of that value shares
+						d := cc.Args[0]
+						for k := 0; k < 4; k++ {
+							if sl, ok := d.(*ssa.Slice); ok {
+								d = sl.X
+								continue
+							}
+							if ct, ok := d.(*ssa.ChangeType); ok {
+								d = ct.X
+								continue
+							}
+							break
+						}
+						if u, ok := d.(*ssa.UnOp); ok && u.Op == token.MUL {
+							if g, ok := u.X.(*ssa.Global); ok && InModulePkg(g.Pkg) && !isInitFunc(fn) {
+								add(in, "global:"+shortPkg(g.Pkg.Pkg.Path())+"."+g.Name(), true, "copy into the array the package-level slice shares with every value taken from it", "")
+								add(in, "global:"+shortPkg(g.Pkg.Pkg.Path())+"."+g.Name(), false, "read (the slice value handed out aliases that array)", "")
+							}
+						}
+					}
 					sc := cc.StaticCallee()
 					if sc == nil || len(cc.Args) == 0 {
 						continue
@@ -645,15 +666,32 @@ func sdkFacingTypes(p *Prog) []*types.Named {
 		if !(InPkgs(fn, "app") || InPkgs(fn, "x")) || p.IsGenerated(fn) {
 			continue
 		}
+		var mis []*ssa.MakeInterface
 		for _, cs := range callSites(fn) {
 			if cs.Callee != nil && InModule(cs.Callee) {
 				continue
 			}
 			for _, a := range cs.Instr.Common().Args {
-				mi, ok := a.(*ssa.MakeInterface)
+				if mi, ok := a.(*ssa.MakeInterface); ok {
+					mis = append(mis, mi)
+				}
+			}
+		}
+		// … and values converted to an interface the SDK declares (elements of a decorator chain, hooks lists)
+		for _, b := range fn.Blocks {
+			for _, in := range b.Instrs {
+				mi, ok := in.(*ssa.MakeInterface)
 				if !ok {
 					continue
 				}
+				if in, ok := mi.Type().(*types.Named); ok && in.Obj().Pkg() != nil && !strings.HasPrefix(in.Obj().Pkg().Path(), ModPath) &&
+					(strings.Contains(in.Obj().Pkg().Path(), "cosmos-sdk") || strings.Contains(in.Obj().Pkg().Path(), "ibc-go")) {
+					mis = append(mis, mi)
+				}
+			}
+		}
+		{
+			for _, mi := range mis {
 				t := mi.X.Type()
 				if pt, isPtr := t.Underlying().(*types.Pointer); isPtr {
 					t = pt.Elem()
